@@ -290,10 +290,28 @@ def build_cases(run, pkgs):
 def coq_case(c, o, prefix):
     pkg, ifc, m = c["pkg"], c["iface"], c["method"]
     js = o.get("json") or {}
-    return ("{| c_env := E_%s; c_iface := I_%s_%s; c_method := %s; c_mspec := S_%s_%s_%s; c_hdr := H_%s_%s; c_base := %s; "
+    return ("{| c_env := E_%s_%s; c_iface := I_%s_%s; c_method := %s; c_mspec := S_%s_%s_%s; c_hdr := H_%s_%s; c_base := %s; "
             "c_args := %s; c_json := %s; c_obs := %s |}"
-            % (prefix, prefix, ifc["name"], rg.coq_str(m["name"]), prefix, ifc["name"], m["name"], prefix, ifc["name"],
+            % (prefix, ifc["name"], prefix, ifc["name"], rg.coq_str(m["name"]), prefix, ifc["name"], m["name"], prefix, ifc["name"],
                rg.coq_str(c["base"]), rg.coq_args(c["args"], m, pkg), rg.coq_pairs(sorted(js.items())), rg.coq_obs(o)))
+
+
+def read_asts(run, restast, mod, pkgs):
+    """{package name: what go/parser reads in the rendered sources} (harness/go/cmd/restast)"""
+    args = []
+    for p in pkgs:
+        a = str(mod / p["name"])
+        if p.get("qpkg"):
+            a += ",%s=%s" % (p["qpkg"]["name"], mod / p["qpkg"]["name"])
+        args.append(a)
+    rc, out, err = lib.sh([str(restast)] + args, timeout=300)
+    res = [json.loads(l) for l in out.splitlines() if l.strip()]
+    if rc != 0 or len(res) != len(pkgs) or any(r.get("error") for r in res):
+        raise lib.CheckBroken("restast failed: rc=%s %s %s" % (rc, err[-800:], [r.get("error") for r in res if r.get("error")][:2]))
+    return {p["name"]: r for p, r in zip(pkgs, res)}
+
+
+ASTS = {}
 
 
 def eval_cases(run, tag, cases, obs, fn="mismatches"):
@@ -314,7 +332,7 @@ def eval_cases(run, tag, cases, obs, fn="mismatches"):
     def one(k):
         defs, terms, ids = [], [], []
         for name, lst in shards[k]:
-            defs.append(rg.render_coq_pkg(lst[0][0]["pkg"], name))
+            defs.append(rg.render_coq_pkg(lst[0][0]["pkg"], name, ASTS.get(name)))
             for c, o in lst:
                 terms.append(coq_case(c, o, name))
                 ids.append(c["id"])
@@ -437,6 +455,7 @@ def main(run):
     proof_ok = run.prove(PROP_FILE, CORR_FILES)
     shoot = run.build_shoot()
     restprobe = run.build_helper("restprobe")
+    restast = run.build_helper("restast")
     probe = lib.build_verifprobe(run)
     mod = l2.make_module(run, "c06mod")
 
@@ -448,6 +467,8 @@ def main(run):
     for w in wit.values():
         files.update(w["files"])
     l2.write_files(mod, files)
+    ASTS.clear()
+    ASTS.update(read_asts(run, restast, mod, pkgs))
     run.log("packages: %d (+%d witness packages)" % (len(pkgs), len(wit)))
 
     # L0 / L1 run while shoot works
@@ -623,6 +644,8 @@ def replay(run, path):
     mod = l2.make_module(run, "c06mod")
     pkg = ri["pkg"]
     l2.write_files(mod, rg.render_go(pkg, mod.name))
+    ASTS.clear()
+    ASTS.update(read_asts(run, run.build_helper("restast"), mod, [pkg]))
     res = run_shoot_all(run, shoot, mod, [pkg])[0]
     if res["rc"] != 0:
         print("shoot rest fails on the recorded package: rc=%s %s" % (res["rc"], res["err"][-800:]))
